@@ -299,6 +299,70 @@ def run(ctx):
                    f'the initial worker list sent to a new worker is filtered by identity only (extra filters: {sorted(set(x.split("::")[-1] for x in bad))}); on_remove_worker broadcasts LostWorker for every registered worker and WorkerState::remove_worker asserts the id is known', b.loc(bi))
     ctx.floor('R09.5', nsite, 1, 'NewWorkerMsg construction in the other_workers closure')
 
+    # ---- R09.6 / R09.7
+    ctx.rule('R09.6', 'no panicking task lookup inside a loop whose body may remove tasks from the core (ids collected before the loop can be gone when their turn comes)')
+    ctx.rule('R09.7', 'TaskQueue::remove asserts membership in one arm: every call site must be guarded by a test that implies the task is queue-resident (or no arm may diverge)')
+    nloops = 0
+    for hp in [REACTOR + x for x in ('on_remove_worker', 'on_cancel_tasks', 'task_failed', 'task_finished', 'on_retract_response', 'on_task_update', 'on_new_tasks')]:
+        b = prog.body(hp)
+        delb = effect_blocks(prog, b, E_DEL)
+        for bi, t, c in b.calls():
+            if c not in PANICKING_LOOKUPS or bi not in b.reachable():
+                continue
+            for h in loop_headers_containing(b, bi):
+                # blocks of this loop: reachable from h and able to reach h again
+                loop_blocks = b.reach_from([h]) & b.coreach([h])
+                removers_in_loop = sorted(x for x in delb if x in loop_blocks and x != bi)
+                if not removers_in_loop:
+                    continue
+                # the key comes from the loop item (collected before the loop)
+                item = None
+                for x in sorted(loop_blocks):
+                    tt = b.term[x]
+                    if tt and tt['k'] == 'call' and (callee_decl(tt) or '').endswith('Iterator::next') and loop_headers_containing(b, x)[:1] == [h]:
+                        item = tt['d'][0]
+                kl = op_local(t['args'][1]) if len(t['args']) > 1 else None
+                if item is None or kl is None or item not in b.derived_from(kl):
+                    continue
+                nloops += 1
+                ctx.ob('R09.6', f'{hp.split("::")[-1]}|{callee_of(t).split("::")[-1]} in removing loop', False,
+                       f'{hp.split("::")[-1]}: {callee_of(t).split("::")[-1]} (panics on an unknown id) is keyed by the loop item while the loop body can remove tasks ({b.loc(removers_in_loop[0])}); an earlier iteration may have removed this id', b.loc(bi))
+    ctx.ob('R09.6', 'loops scanned', True, f'reactor loops combining a panicking lookup with a transitive Core::remove_task: {nloops}', None)
+    tqr = prog.body(TQ + 'remove')
+    div = diverging_blocks(tqr)
+    asserting = bool(div)
+    for o, b, bi in call_sites(prog, TQ + 'remove'):
+        if is_test_util(o):
+            continue
+        vs = variants_at(b, TRS, bi)
+        guarded = False
+        why = ''
+        if vs and set(vs) <= {'Prefilled'}:
+            guarded, why = True, 'state Prefilled (member of the prefill set)'
+        else:
+            # a test of unfinished_deps == 0 (switch on the field or Eq with const 0) dominating the call
+            for x in b.reachable():
+                tt = b.term[x]
+                if tt and tt['k'] == 'sw' and b.dominates(x, bi):
+                    l = op_local(tt['op'])
+                    if l is not None and ('unfinished_deps' in local_field_sources(b, l) or 'unfinished_deps' in [n for n, a_, v_ in place_fields(op_place(tt['op']))]):
+                        zero_t = [tb for v, tb in tt['ts'] if v == 0]
+                        if zero_t and bi in b.reach_from(zero_t, avoid_edges=[(x, y) for y in b.succ[x] if y not in zero_t]) and \
+                                bi not in b.reach_from([y for y in b.succ[x] if y not in zero_t], avoid=[x]):
+                            guarded, why = True, 'unfinished_deps == 0'
+            e, _ = guard_edges(b, TASK + '::is_ready', True)
+            if e and dominated_by_edges(b, bi, e):
+                guarded, why = True, 'is_ready()'
+            from hqrules.templates import binops, operand_fields, bool_uses
+            for x, s_, op, a_, c_ in binops(b):
+                if op == 'Eq' and any(o[0] == 'k' and '0_' in o[1] for o in (a_, c_)) and 'unfinished_deps' in (operand_fields(b, a_) | operand_fields(b, c_)):
+                    te = set((sb, ts) for sb, ts, fs in bool_uses(b, s_['p'][0]))
+                    if te and dominated_by_edges(b, bi, te):
+                        guarded, why = True, 'unfinished_deps == 0'
+        ctx.ob('R09.7', f'{o.split("::")[-1]}|TaskQueue::remove call guarded', guarded or not asserting,
+               f'{o.split("::")[-1]} calls TaskQueue::remove, whose `One` arm asserts that the removed id is the queued one; the call must imply queue membership '
+               f'({"guard: " + why if guarded else "no guard: a Waiting task with unfinished dependencies is not in the queue, and a single ready task of the same priority trips the assertion"})', b.loc(bi))
+
     # ---- informational inventory
     inv = defaultdict(int)
     for hp in list(handlers) + [REACTOR + 'on_cancel_tasks', REACTOR + 'on_remove_worker', REACTOR + 'on_new_tasks', MAPPING + 'create_task_mapping']:
